@@ -1888,7 +1888,9 @@ sexp sexp_compare (sexp ctx, sexp a, sexp b) {
       r = sexp_type_exception(ctx, NULL, SEXP_NUMBER, a);
       break;
     case SEXP_NUM_FIX_FIX:
-      r = sexp_make_fixnum(sexp_unbox_fixnum(a) - sexp_unbox_fixnum(b));
+      /* the difference may not fit in a fixnum, only the sign matters */
+      r = sexp_make_fixnum(sexp_unbox_fixnum(a) < sexp_unbox_fixnum(b) ? -1
+                           : sexp_unbox_fixnum(a) > sexp_unbox_fixnum(b) ? 1 : 0);
       break;
     case SEXP_NUM_FIX_FLO:
       if (isinf(sexp_flonum_value(b))) {
